@@ -7,6 +7,8 @@ Correspondence: cuqi.distribution.* logpdf / pdf / cdf / logd  vs  Model/C04_Den
   * DECISION: support tests (-inf), refusals, internal (rank, branch) -- exact.
 Independent oracle (plain Python `math`, explicit loops over components, Fractions for the linear algebra): the logarithm of
 the *documented* density; numerical quadrature of pdf over the support (integral = 1) and of pdf up to x (= cdf) in 1-d.
+Third deepening round: box-mass cells (iterated quadrature of the implementation's density over the box of the n-dimensional
+normalisation theorems C04_*_box_mass / C04_*_normalised_nd vs the theorem's mass, factors enclosed in Coq) and user-defined cells.
 """
 import math, itertools, warnings
 from fractions import Fraction
@@ -18,7 +20,10 @@ IMPORTS = ("From CV Require Import Base.Cmp Model.C04_Dens Model.C04_Cdf Model.C
 RULE = ("every family x parameter form (scalar broadcast / vector per parameter) x dim in {1,2,3,5} x way of passing "
         "(float, list, ndarray, conditioned keyword, callable) x method (logpdf, pdf, logd, cdf where closed form); Gaussian: one "
         "SPD matrix pushed through 4 parameterisations x {scalar, vector, diagonal matrix, dense, sparse} (+ dims 74..77 for the "
-        "dense/sparse switch); GMRF/LMRF/CMRF x boundary condition x order x 1-d/2-d; distinct = distinct (family, inputs, method); "
+        "dense/sparse switch); GMRF/LMRF/CMRF x boundary condition x order x 1-d/2-d; n-dimensional normalisation: 9 families (Gaussian in "
+        "4 forms) x dims 1, 2 x scalar / vector parameters, the implementation's density integrated over the box of the theorem vs the "
+        "theorem's mass; user-defined distributions wrapping a plain-Python log-density (7 families x dims 1, 3 x logpdf / pdf / logd / "
+        "keyword logd); distinct = distinct (family, inputs, method); "
         "trivial = none")
 
 TOL = Fraction(1, 10 ** 9)
@@ -296,6 +301,12 @@ def build_dist(cuqi, fam, P, n, ifaces, via):
         kw[first] = lambda par_: par_
         d = cls(**kw, geometry=n)
         return d(par_=vals[first]), None
+    if via == "userdefined":      # the quantifier's "user-defined" family: the user's log-density function wrapped as a distribution
+        f = lambda xx: doc_logpdf(fam, P, [float(t) for t in np.asarray(xx, dtype=float).ravel()])
+        return D.UserDefinedDistribution(dim=n, logpdf_func=f), None
+    if via == "userdefined-named":
+        f = lambda xx: doc_logpdf(fam, P, [float(t) for t in np.asarray(xx, dtype=float).ravel()])
+        return D.UserDefinedDistribution(dim=n, logpdf_func=f, name="xx"), "named"
     if via == "named":            # optional arguments of the entry points: name=, a Geometry object, keyword evaluation logd(name=x)
         return cls(**kw, geometry=cuqi.geometry.Continuous1D(n), name="xx"), "named"
     raise ValueError(via)
@@ -520,6 +531,27 @@ def scalar_cdf_cases(ctx, cuqi, state, cases, stats):
                     one_scalar_case(ctx, cuqi, state, cases, stats, fam, P, x, n, forms, "direct", ifaces, "cdf", dist, condvals, cell_suffix="/int-shape")
 
 
+def userdefined_cases(ctx, cuqi, state, cases, stats):
+    """the "user-defined" item of the quantifier: cuqi.distribution.UserDefinedDistribution wrapping a plain-Python log-density (the documented
+    density of one of the families, written without numpy / cuqi): logpdf, logd, pdf -- also by keyword through name= -- must return the
+    logarithm of THAT density (compared with the Coq model of the family and with the function itself), -inf / 0 outside its support"""
+    rng = ctx.rng
+    counter = 0
+    for fam in ("Normal", "Cauchy", "Gamma", "Beta", "Laplace", "Uniform", "InverseGamma"):
+        names, _, scalar_only = FAMILIES[fam]
+        for n in ((1, 3) if not ctx.thorough else (1, 2, 3, 5)):
+            forms = "".join("S" if (nm in scalar_only or n == 1) else "V" for nm in names)
+            P = draw_params(rng, fam, forms, n)
+            for via, methods in (("userdefined", ["logpdf", "pdf", "logd"]), ("userdefined-named", ["logd"])):
+                dist, condvals = build_dist(cuqi, fam, P, n, ["float"] * len(names), via)
+                for method in methods:
+                    counter += 1
+                    inside = not (fam in ("Uniform", "Beta", "Gamma") and counter % 5 == 0)
+                    x = draw_x(rng, fam, P, n, inside)
+                    one_scalar_case(ctx, cuqi, state, cases, stats, fam, P, x, n, forms, via, ["float"] * len(names), method, dist, condvals,
+                                    cell_suffix="/user-defined")
+
+
 def scalar_falsy_cases(ctx, cuqi, state, cases, stats):
     """falsy-but-legitimate values: location / mean / low = integer 0, evaluation point all zeros (or on the boundary), integers
     as parameter values"""
@@ -733,6 +765,14 @@ def gamma_int_cdf(k, r, x):
     return 1.0 - math.exp(-y) * tot
 
 
+def normal_factor(m, sd, e, sg):
+    """Normal cdf factor normal_cdf1 (m, sd, e) through the standardised point computed by the model over Q (theorem
+    C04_normal_cdf_standardised; Interval's `integral` wants literal bounds): (Coq term, value, sign, side condition)"""
+    z = (frac(e) - frac(m)) / frac(sd)
+    pre = "(ql_eqb (normal_zq %s %s %s) %s = true)" % (cql([m]), cql([sd]), cql([e]), cql([z]))
+    return ("(normal_cdf_z [%s]%%list)" % cr(z), 0.5 * (1 + math.erf(float(z) / math.sqrt(2))), sg, pre)
+
+
 def box_spec(rng, fam, P, n):
     """the box of the theorem for this family, the 1-d factors of its mass as (Coq expression of a cdf-type term, float value, sign) per
     coordinate, and the breakpoints of the density"""
@@ -747,8 +787,7 @@ def box_spec(rng, fam, P, n):
             b = m + rng.randint(1, 20) / 8 * sd
             fs = []
             for e, sg in ((b, 1), (a, -1)):
-                z = (frac(e) - frac(m)) / frac(sd)
-                fs.append(("(normal_cdf1 (%s, %s, %s))" % (cr(m), cr(sd), cr(e)), Phi(float(z)), sg))
+                fs.append(normal_factor(m, sd, e, sg))
             box.append((a, b)); factors.append(fs); pts.append([])
         elif fam == "Cauchy":
             l, sc = g("location", i), g("scale", i)
@@ -774,9 +813,9 @@ def box_spec(rng, fam, P, n):
             box.append((0.0, 1.0)); pts.append([]); factors.append([("1", 1.0, 1)])
         elif fam == "Lognormal":
             m, sd = g("mean", i), math.sqrt(g("cov", i))
-            v = T / 2
+            v = T / 2 + 0.0625           # (+-v - m) / sd is never 0: Interval's `integral` wants a non-degenerate interval
             box.append((math.exp(-v), math.exp(v))); pts.append([])
-            factors.append([("(normal_cdf1 (%s, sqrt %s, %s))" % (cr(m), cr(g("cov", i)), cr(e)), Phi((e - m) / sd), sg) for e, sg in ((v, 1), (-v, -1))])
+            factors.append([normal_factor(m, sd, e, sg) for e, sg in ((v, 1), (-v, -1))])
     return box, factors, pts
 
 
@@ -852,7 +891,7 @@ def box_mass_cases(ctx, cuqi, state, cases, stats):
                 if forms[1] == "V":
                     P["std"] = [rng.choice([0.5, 0.75, 1.0, 1.5, 2.0]) for _ in P["std"]]
             box, factors, pts = box_spec(rng, fam, P, n)
-            meta.update({"box": [list(b) for b in box], "breakpoints": pts, "factor_values": [[(v, sg) for _, v, sg in fs] for fs in factors]})
+            meta.update({"box": [list(b) for b in box], "breakpoints": pts, "factor_values": [[(f[1], f[2]) for f in fs] for fs in factors]})
             obs = boxmass_observe(cuqi, meta)
             meta["observed"] = obs
             fail, sig, expected = boxmass_oracle(meta, obs)
@@ -860,8 +899,11 @@ def box_mass_cases(ctx, cuqi, state, cases, stats):
             parts, prod, nf = [], Fraction(1), 0
             for fs in factors:
                 tot = Fraction(0)
-                for e, v, sg in fs:
+                for fct in fs:
+                    e, v, sg = fct[0], fct[1], fct[2]
                     q = frac(float(v))
+                    if len(fct) > 3:
+                        parts.append(fct[3])
                     if e != "1":
                         parts.append("(Rabs (%s - %s) <= %s)%%R" % (e, cr(q), cr(eps)))
                         nf += 1
@@ -2063,6 +2105,10 @@ def gaussian_cases(ctx, cuqi, state, cases, stats):
             for gk in ["scalar", "vector", "spdiag", "densefull"]:
                 if gk == "densefull" and not ctx.thorough and not (n == thr + 1 or (n == thr and form == "cov")):
                     continue                # quick: every form just above the switch (sparse branch), one just below
+                if gk != "densefull" and not ctx.thorough and (list(GFORMS).index(form) + n) % 2:
+                    continue                # quick: two of the four forms per (dim, kind), alternating with the dimension, so that every (form, kind)
+                                            # is evaluated on both sides of the default switch (thr-1 or thr; thr+1 or thr+2); all of them in thorough,
+                                            # and at small dimensions (threshold lowered through cuqi.config) in gaussian_switch_cases
                 mean = pt(1) if (n + len(gk)) % 2 == 0 else pt(n)
                 meta = {"kind": "gaussian", "form": form, "gkind": gk, "dim": n, "mean": mean, "via": "direct", "method": "logpdf", "x": pt(n)}
                 if gk == "scalar":
@@ -2094,6 +2140,7 @@ BCS = {"zero": "BZero", "periodic": "BPeriodic", "neumann": "BNeumann"}
 SIG_GMRF0 = "GMRF.logpdf|order0-periodic/neumann:rank-dim-1"
 SIG_GMRF2N = "GMRF.logpdf|order2-neumann:rank-and-logdet"
 SIG_GMRF_LARGE = "GMRF.logpdf|dim>MAX_DIM_INV:periodic/neumann:logdet-of-regularised-precision"
+SIG_SLAP_MASS = "SmoothedLaplace.logpdf|beta>0:density-not-normalised"
 
 
 def fr_pdet(A, k):
@@ -2461,6 +2508,11 @@ def witness_values(cuqi):
         g2 = D.GMRF(np.zeros(5), 2.0, "neumann", 2)
         w["gmrf2n"] = float(g2.logpdf(np.zeros(5)))                                        # documented: rank 3, pdet(2 D^T D)
         w["gmrf2n_rank"] = int(g2._rank)
+        # total mass of the SmoothedLaplace density (theorem C04_smoothedlaplace_normalised_refuted: at most 1 - gap for beta > 0);
+        # the exact value is (sqrt(beta)/b) K_1(sqrt(beta)/b) = K_1(1) = 0.6019...
+        from scipy.integrate import quad
+        sl = D.SmoothedLaplace(0.0, 1.0, 1.0, geometry=1)
+        w["slap_mass"] = float(quad(lambda t: math.exp(float(sl.logpdf(np.array([t])))), -60.0, 60.0, points=[0.0], epsabs=1e-12, limit=200)[0])
     return w
 
 
@@ -2511,6 +2563,8 @@ def known_witnesses(ctx):
         "MIN_DIM_SPARSE=1; Gaussian(zeros(2), cov=[[1,1],[1,1]]).logpdf([1,0]) = %r; [1,0] is outside the support span{(1,1)}" % (w["offsupport"],))
     out[SIG_GMRF_LARGE] = (abs(w["gmrf_large"] - w["gmrf_large_ref"]) > 1e-4,
         "cuqi.config.MAX_DIM_INV=5; GMRF(zeros(6),2,'periodic',order=1).logpdf(0) = %r, with the exact eigenvalue route %r" % (w["gmrf_large"], w["gmrf_large_ref"]))
+    out[SIG_SLAP_MASS] = (abs(w["slap_mass"] - 1.0) > 1e-6,
+        "the integral of exp(SmoothedLaplace(0,1,beta=1).logpdf) over the real line is %r, not 1 (exact value K_1(1) = 0.60190723...)" % w["slap_mass"])
     out[SIG_GMRF0] = (not close(w["gmrf0"], 2.5 * (math.log(2) - LOG2PI)),
         "GMRF(zeros(5),2,'periodic',order=0).logpdf(0) = %r, documented N(0, I/2): %r" % (w["gmrf0"], 2.5 * (math.log(2) - LOG2PI)))
     # order 2 neumann, n = 5: D^T D has eigenvalues with product (non-zero ones) = pdet; true rank 3
@@ -2567,6 +2621,7 @@ def run(ctx):
     scalar_boundary_reassign_cases(ctx, cuqi, state, cases, stats)
     scalar_sibling_cases(ctx, cuqi, state, cases, stats)
     box_mass_cases(ctx, cuqi, state, cases, stats)
+    userdefined_cases(ctx, cuqi, state, cases, stats)
     cases = balance_shards(cases)
     return Result(cases=cases, rule=RULE, extra={"c04_stats": stats, "c04_state": {k: v for k, v in state.items() if k != "witness"}},
                   assumptions=["lnGamma at shapes that are not integers or half-integers enters as a certificate value from scipy.special.gammaln, cross-checked against libm lgamma to 1e-12",
